@@ -109,6 +109,23 @@ class Ctx:
     def feasible(self, f):
         return self._check(f) != z3.unsat
 
+    _SLOW_MEMO: dict = {}
+
+    def entails_slow(self, f, ms=1500):
+        """entails() with a larger budget, memoised across the re-executions of a path prefix (symbol names
+        are deterministic, so the same prefix gives the same query text)."""
+        import hashlib
+        key = hashlib.sha1((str(len(self.hyps)) + "|" + "|".join(str(h.hash()) for h in self.hyps[-40:]) + "|" + f.sexpr()).encode()).hexdigest()
+        if key in Ctx._SLOW_MEMO:
+            return Ctx._SLOW_MEMO[key]
+        self.solver.set("timeout", ms)
+        try:
+            r = self.entails(f)
+        finally:
+            self.solver.set("timeout", self.BRANCH_TIMEOUT_MS)
+        Ctx._SLOW_MEMO[key] = r
+        return r
+
     def branch(self, cond, what=""):
         """Decide a symbolic condition; forks by scheduling the other side for a later run."""
         if isinstance(cond, Sym):
@@ -157,6 +174,11 @@ class Ctx:
             Obligation(label, hyps, goal, kind, tuple(props), tuple(self.events), self.func, note, len(self.hyps) - len(hyps),
                        list(self.hyps) if len(hyps) != len(self.hyps) else None)
         )
+
+    def lemma(self, label, f, props=(), tag="lemma"):
+        """intermediate assertion: proved as its own obligation here, then available as a hypothesis"""
+        self.oblige(label, f, kind="lemma", props=props)
+        self.assume(f, tag)
 
     def note(self, s):
         self.notes.append(s)
